@@ -99,8 +99,8 @@ theorem multiRun_no_fuel_passes (one : Run) (passes limit : Nat) (hone : one.end
 
 /-! ### `MultiPassReader` -/
 
-/-- the reader has read no more in this pass than its position says, and never stands beyond the end of the source -/
-def MPR.WF (data : Bytes) (s : MPR) : Prop := s.passBytes ≤ s.pos ∧ s.pos ≤ data.length
+/-- the reader has counted bytes only if the source has some, and never stands beyond the end of the source -/
+def MPR.WF (data : Bytes) (s : MPR) : Prop := (s.passBytes ≠ 0 → 0 < data.length) ∧ s.pos ≤ data.length
 
 theorem MPR.init_WF (data : Bytes) : MPR.WF data MPR.init := by simp [MPR.WF, MPR.init]
 
